@@ -145,7 +145,14 @@ def dense_abs(cores):
 
 
 def fro(t):
-    return float(torch.linalg.norm(widen(t).reshape(-1)))
+    """Frobenius norm, computed on the entries divided by the largest one (no underflow / overflow of the squares)."""
+    v = widen(t).reshape(-1)
+    if v.numel() == 0:
+        return 0.0
+    m = float(v.abs().max())
+    if not (m > 0) or m != m or m == float("inf"):
+        return m if m == m else float("nan")
+    return m * float(torch.linalg.norm(v / m))
 
 
 # ----------------------------------------------------------------------------------------------
